@@ -409,7 +409,8 @@ class RequestWideParams(object):
         # JSONschema has already confirmed that limit has the form
         # of an integer.
         if limit:
-            limit = int(limit[0])
+            # The schema validation sees the last of repeated parameters.
+            limit = int(limit[-1])
 
         # TODO(efried): Make it an error to specify group_policy more than once
         #  - maybe when we make it optional.
